@@ -57,6 +57,10 @@ func c06after(v *vServer, vc *vConn, label string) {
 	// has been told to stop and has returned
 	vSettle(func() bool { return v.sess.idleReturned == v.sess.idleStarted })
 	nd.Assert(v.sess.idleReturned == v.sess.idleStarted, label+"-backend-idle-still-running-after-connection-ended")
+	// ... and no goroutine of the connection is left behind (e.g. blocked on a channel
+	// nobody will ever read)
+	vSettle(func() bool { return nd.Goroutines() == 0 })
+	nd.Assert(nd.Goroutines() == 0, label+"-goroutine-left-alive-after-connection-ended")
 	_, rest := vLines(vc.out)
 	nd.Assert(rest == "", label+"-output-whole-lines")
 	for _, o := range v.sess.calls {
